@@ -480,6 +480,8 @@ func (e *Engine) fa(skey, fname, base string) string {
 	if !e.sc.seen[key] {
 		e.sc.seen[key] = true
 		inv := sym("fainv$" + skey + "$" + fname)
+		rootof := e.sc.declFun("rootof", []string{"Int"}, "Int")
+		e.sc.assert(fmt.Sprintf("(= (%s %s) (ite (< %s 0) (%s %s) %s))", rootof, term, base, rootof, base, base))
 		tag := e.sc.declFun("fatag", []string{"Int"}, "Int")
 		e.sc.assert(fmt.Sprintf("(and (= (%s %s) %s) (< %s 0) (= (%s %s) %d))", inv, term, base, term, tag, term, e.typeID(types.NewVar(0, nil, "fa$"+skey+"$"+fname, types.Typ[types.Int]).Type())*0+e.faID(skey+"$"+fname)))
 	}
